@@ -139,6 +139,10 @@ func (s *span) styleToSpan(in *style) error {
 		return errInvalidContent
 	}
 	s.end += s.at
+	if s.end < s.at {
+		// The sum is out of the integer range: it wrapped around.
+		return errInvalidContent
+	}
 
 	if s.tp == "" {
 		s.key = in.Key
